@@ -164,6 +164,23 @@ func (e *Env) Delete(swamp string, keys ...string) error {
 	return err
 }
 
+// DeleteOK deletes one key and reports whether the engine answered DELETED.
+func (e *Env) DeleteOK(swamp, key string) bool {
+	r, err := e.S.GW.Delete(context.Background(), &hydrapb.DeleteRequest{Swamps: []*hydrapb.DeleteRequest_SwampKeys{
+		{IslandID: Island, SwampName: swamp, Keys: []string{key}}}})
+	if err != nil {
+		return false
+	}
+	for _, sr := range r.GetResponses() {
+		for _, ks := range sr.GetKeyStatuses() {
+			if ks.GetKey() == key && ks.GetStatus() == hydrapb.Status_DELETED {
+				return true
+			}
+		}
+	}
+	return false
+}
+
 func (e *Env) ShiftExpired(swamp string, howMany int32) ([]Rec, error) {
 	r, err := e.S.GW.ShiftExpiredTreasures(context.Background(), &hydrapb.ShiftExpiredTreasuresRequest{
 		IslandID: Island, SwampName: swamp, HowMany: howMany})
